@@ -191,8 +191,10 @@ func (e *Engine) checkDirect(r *relationTuple, restDepth int) checkgroup.CheckFu
 				WithField("method", "checkDirect").
 				WithError(err).
 				Error("failed to look up direct access in db")
+			// A failed lookup is not "not a member": a negation would turn that
+			// into "allowed".
 			resultCh <- checkgroup.Result{
-				Membership: checkgroup.NotMember,
+				Err: errors.WithStack(err),
 			}
 
 		case found:
